@@ -110,14 +110,18 @@ STRENGTH = {
     'C05k': '`Wire.tla` FieldProducts: TS payloads that mix IPv4 and IPv6 selectors in five orders (each selector has its own Selector Length, 3.13)',
     'C11k': 'raw offers with several proposals are also sent with the KE payload in the first group of each LATER proposal: the suite comes from the first acceptable proposal (`Negotiate.tla` SelectBest), INVALID_KE_PAYLOAD names its group',
     'C12k': 'network -> selector -> network for every prefix length at the lowest, the highest and ordinary addresses of both families (`::/0` ... `::/128`, `0.0.0.0/0` ...): the identity, and of the same family',
+    'C02l': 'scenario `rejecting_responder_without_credential`: a responder with the wrong secret / key / identity whose IKE_AUTH answer turns the CHILD_SA down (NO_PROPOSAL_CHOSEN, TS_UNACCEPTABLE): failure at the initiator, with the genuine responder as control (PSK and RSA)',
+    'C11l': 'scenario `policy_of_the_matched_entry`: a responder with two protect entries of different suites and a request whose selectors match one entry while its algorithms fit only the other (IKE_AUTH and CREATE_CHILD_SA): NO_PROPOSAL_CHOSEN, nothing installed',
+    'C15l': 'scenario `index_edges`: protect entries with index 0 and 2**20 next to an ordinary one - the outbound policy carries index << 3 | OUT, the ACQUIRE maps back (written after reading the report, before the evaluation)',
+    'C20l': 'scenario `cli_odd_secrets`: pyikev2.py at the default level on files whose PSK looks like another notation (0x / 0b / 0o literals with a slip, floats, base64, YAML tags, format templates), in either auth section (written after reading the report, before the evaluation)',
     'C19f': '`Config.tla`: secrets with blanks / tabs / line ends at either end and of the other letter case; float values (`.inf`, `.nan`, `1.5`); the cross-key rule "not all algorithm lists empty"',
 }
 ANTICIPATED = {'C13c', 'C18c', 'C09d', 'C16d', 'C18d'}
-AFTER_REPORT = {'C01e'}       # strengthened after reading the agent's report, before the first evaluation: not counted as caught outright
+AFTER_REPORT = {'C01e', 'C15l', 'C20l'}       # strengthened after reading the agent's report, before the first evaluation: not counted as caught outright
 
 
 def main():
-    rows, counts = [], {1: [0, 0], 2: [0, 0], 3: [0, 0], 4: [0, 0], 5: [0, 0], 6: [0, 0], 7: [0, 0], 8: [0, 0], 9: [0, 0], 10: [0, 0], 11: [0, 0]}
+    rows, counts = [], {1: [0, 0], 2: [0, 0], 3: [0, 0], 4: [0, 0], 5: [0, 0], 6: [0, 0], 7: [0, 0], 8: [0, 0], 9: [0, 0], 10: [0, 0], 11: [0, 0], 12: [0, 0]}
     for p in sorted(glob.glob(os.path.join(VERIF, 'seeded', '*', 'meta.json'))):
         m = json.load(open(p))
         k = m['name']
@@ -130,8 +134,8 @@ def main():
         rows.append((k, m['change'], m['needs_to_manifest'], 'yes' if outright else ('anticipated' if k in ANTICIPATED else 'no'), STRENGTH.get(k, '-') if not outright else '-'))
     total = sum(c[1] for c in counts.values())
     out = ['### 0.7 Seeded changes: which check catches which change\n',
-           f'{total} changes were written by fresh sub-agents (one per property and round; rounds 10 and 11 covered ten properties each: those with a miss in round 9 plus C17, then the other ten) that saw **only the text of the property** and a scratch worktree of `/repo` -',
-           'nothing from `/verif`; rounds 2 to 11 were additionally told which ideas the earlier rounds had used and to stay away from them.  Each change compiles, leaves the',
+           f'{total} changes were written by fresh sub-agents (one per property and round; rounds 10 and 11 covered ten properties each - those with a miss in round 9 plus C17, then the other ten - and round 12 the eleven with a miss in rounds 10 / 11) that saw **only the text of the property** and a scratch worktree of `/repo` -',
+           'nothing from `/verif`; rounds 2 to 12 were additionally told which ideas the earlier rounds had used and to stay away from them.  Each change compiles, leaves the',
            'repository\'s test suite at 176 passed / 11 failed, comes with a demonstration (`demo_seed.py`: PASS on the original, FAIL on the change) and was confirmed by',
            '`harness/seedeval.py` in a fresh worktree before the check of its property was run on it (`VERIF_REPO=<worktree>`, quick tier).  Patch, demonstration and',
            '`meta.json` (what it needs to manifest, what was run, the outcome before and after strengthening) are in `/verif/seeded/<id>/`; none of them was ever applied to `/repo`.\n',
